@@ -108,10 +108,36 @@ class Tracker:
     """Builds argument buffers from JSON and remembers a deep copy of each.  With ``reuse`` (the buffers of an earlier
     invocation of the same entry) the i-th buffer is not created anew: the earlier object is overwritten in place."""
 
-    def __init__(self, reuse: Optional[List[Any]] = None):
+    def __init__(self, reuse: Optional[List[Any]] = None, pool: Optional[Dict[str, Any]] = None):
         self.items: List[tuple] = []  # (name, object, copy)
+        self.objects: List[tuple] = []  # (name, object, attribute-tree snapshot taken before the call)
         self.reuse = reuse
         self.reused = 0
+        self.pool = pool  # same_object steps: objects built by earlier calls of the step, by (tag, build key)
+        self.pooled = 0
+
+    def obj(self, tag: str, key: Any, build: Callable[[], Any], name: str = ""):
+        """An OBJECT argument (parsed / constructed through the library): built by ``build()`` - or, inside a same_object step,
+        the very object an earlier call of the step built for the same (tag, key).  Its full attribute tree (recursive,
+        buffers by content) is snapshotted now and compared after the call."""
+        k = tag + "|" + json.dumps(key, sort_keys=True)
+        if self.pool is not None and k in self.pool:
+            o = self.pool[k]
+            self.pooled += 1
+        else:
+            o = build()
+            if self.pool is not None:
+                self.pool[k] = o
+        self.objects.append((name or tag, o, obs(o)))
+        return o
+
+    def changed_objects(self) -> List[dict]:
+        out = []
+        for name, o, before in self.objects:
+            after = obs(o)
+            if before != after:
+                out.append({"object": name, "type": type(o).__name__, "before": before, "after": after})
+        return out
 
     def track(self, obj, name: str = ""):
         i = len(self.items)
@@ -378,8 +404,8 @@ def scribble(result: Any, arguments: List[Any], result_in_scope: bool = True) ->
     return count[0]
 
 
-def _run_one(e: Entry, a: dict, reuse: Optional[List[Any]] = None):
-    T = Tracker(reuse)
+def _run_one(e: Entry, a: dict, reuse: Optional[List[Any]] = None, pool: Optional[Dict[str, Any]] = None):
+    T = Tracker(reuse, pool)
     rec: Dict[str, Any] = {}
     res = None
     try:
@@ -393,6 +419,9 @@ def _run_one(e: Entry, a: dict, reuse: Optional[List[Any]] = None):
         rec["ok"] = obs(res, top=True)
     if mut and not (e.inplace and e.inplace(a)):
         rec["mut"] = mut
+    objmut = T.changed_objects()
+    if objmut:
+        rec["objmut"] = objmut
     return rec, res, T
 
 
@@ -400,7 +429,8 @@ def run_calls_here(calls: List[dict]) -> List[dict]:
     """Steps: a plain call {e, a}; {op: "scribble_repeat", e, a}: call, damage in place everything the caller got hold of
     (result and arguments), call again with arguments rebuilt from JSON -> {"multi": [first, second]}; {op: "reuse", e, a, b}:
     call with a, overwrite the same argument buffers in place with b's values and call again, then call with a fresh copy of a
-    -> {"multi": [a, b_in_reused_buffers, a_again]}."""
+    -> {"multi": [a, b_in_reused_buffers, a_again]}; {op: "same_object", e, a, seq: [call, ...]}: the calls of seq run with one
+    shared pool of object arguments (an object argument with the same tag and build key is built once and passed again)."""
     out = []
     for c in calls:
         e = CATALOGUE.get(c["e"])
@@ -419,6 +449,17 @@ def run_calls_here(calls: List[dict]) -> List[dict]:
             r2, res2, T2 = _run_one(e, c["b"], reuse=T1.buffers())
             r3, _, _ = _run_one(e, c["a"])
             out.append({"multi": [r1, r2, r3], "touched": T2.reused})
+        elif op == "same_object":
+            pool: Dict[str, Any] = {}
+            recs, pooled = [], 0
+            for q in c["seq"]:
+                eq = CATALOGUE.get(q["e"])
+                if eq is None:
+                    raise HarnessError(f"unknown catalogue entry {q['e']}")
+                r, _, Tq = _run_one(eq, q["a"], pool=pool)
+                pooled += Tq.pooled
+                recs.append(r)
+            out.append({"multi": recs, "touched": pooled})
         else:
             raise HarnessError(f"unknown step op {op!r}")
     return out
@@ -668,6 +709,15 @@ class Spec:
         """The spec split by its mode switches (opcodes, variants, lengths): each returned spec generates one shape only."""
         return [self]
 
+    def rejects(self, rng) -> List[Any]:
+        """Candidate values just outside what the spec generates (integers below / above the range, 2**width; buffers one
+        unit too short / too long / empty).  Whether the library rejects them is observed, not assumed."""
+        return []
+
+    def unit(self) -> str:
+        """one unit of a string-valued spec: a bit or an octet"""
+        return "00"
+
     def canon(self, rng, k: int):
         """k-th canonical value (k = 0, 1: the regular shape, two different values; k >= 2: an alternative shape)."""
         raise NotImplementedError
@@ -696,6 +746,12 @@ class Bits(Spec):
     def modes(self):
         return [Bits(self.n)] + [Bits(a) for a in self.alts]
 
+    def rejects(self, rng):
+        return [_fmt_bits(rng.getrandbits(L) if L else 0, L) for L in sorted({self.n - 1, self.n + 1, 0} - {self.n, -1})]
+
+    def unit(self):
+        return "0"
+
 
 class Hex(Spec):
     """hex string of n bytes, sometimes one of the ``alts`` lengths."""
@@ -716,6 +772,9 @@ class Hex(Spec):
     def modes(self):
         return [Hex(self.n)] + [Hex(a) for a in self.alts]
 
+    def rejects(self, rng):
+        return [bytes(rng.getrandbits(8) for _ in range(L)).hex() for L in sorted({self.n - 1, self.n + 1, 0} - {self.n, -1})]
+
 
 class HexVar(Spec):
     def __init__(self, lo: int, hi: int):
@@ -732,6 +791,9 @@ class HexVar(Spec):
         L = (mid - mid % 2) if k < 2 else min(self.hi, (mid - mid % 2) + 1)
         L = max(self.lo, L)
         return bytes(rng.getrandbits(8) for _ in range(L)).hex()
+
+    def rejects(self, rng):
+        return [bytes(rng.getrandbits(8) for _ in range(L)).hex() for L in sorted({self.lo - 1, self.hi + 1, 0} - set(range(self.lo, self.hi + 1)) - {-1})]
 
 
 COMMON_BIT_LENGTHS = (0, 1, 7, 8, 9, 16, 24, 32, 36, 40, 48, 64, 72, 77, 80, 88, 96, 128, 144, 192, 196)
@@ -754,6 +816,12 @@ class BitsVar(Spec):
         mid -= mid % 8
         L = max(self.lo, mid) if k < 2 else min(self.hi, max(self.lo, mid) + 3)
         return _fmt_bits(rng.getrandbits(L) if L else 0, L)
+
+    def rejects(self, rng):
+        return [_fmt_bits(rng.getrandbits(L) if L else 0, L) for L in sorted({self.lo - 1, self.hi + 1, 0} - set(range(self.lo, self.hi + 1)) - {-1})]
+
+    def unit(self):
+        return "0"
 
 
 def _mutate_hex(h: str, kind: str, pos: int, val: int) -> str:
@@ -825,6 +893,13 @@ class Vec(Spec):
             out.append(Seq([v, alt]))
         return out
 
+    def rejects(self, rng):
+        v, u = self.vectors[0], len(self.unit())
+        return [v[:-u], v + self.unit(), ""]
+
+    def unit(self):
+        return "0" if self.is_bits else "00"
+
 
 class Int(Spec):
     def __init__(self, lo: int, hi: int):
@@ -837,6 +912,14 @@ class Int(Spec):
 
     def canon(self, rng, k):
         return rng.randint(self.lo, self.hi)
+
+    def rejects(self, rng):
+        cand = [self.lo - 1, -1, self.hi + 1, 1 << max(self.hi.bit_length(), 1), 1 << 32, 1 << 64]
+        out = []
+        for v in cand:
+            if not (self.lo <= v <= self.hi) and v not in out:
+                out.append(v)
+        return out
 
 
 class Choice(Spec):
@@ -905,6 +988,18 @@ class Map(Spec):
     def modes(self):
         return [Map(m, self.fn) for m in self.spec.modes()]
 
+    def rejects(self, rng):
+        out = []
+        for b in self.spec.rejects(rng):
+            try:
+                out.append(self.fn(b))
+            except Exception:
+                pass  # the pure frame builder cannot express the value
+        return out
+
+    def unit(self):
+        return self.spec.unit()
+
 
 def _each_choice(named: Dict[Any, Spec]) -> List[Dict[Any, Spec]]:
     """each-choice combination of the modes of several specs: the all-first combination, then every other mode of every
@@ -937,6 +1032,17 @@ class OneOf(Spec):
         s = self.specs[0] if k < 2 else self.specs[(k - 1) % len(self.specs)]
         return s.canon(rng, k)
 
+    def rejects(self, rng):
+        out = []
+        for sp in self.specs:
+            for v in sp.rejects(rng):
+                if v not in out:
+                    out.append(v)
+        return out
+
+    def unit(self):
+        return self.specs[0].unit()
+
 
 class ListOf(Spec):
     def __init__(self, spec: Spec, lo: int, hi: int):
@@ -950,6 +1056,9 @@ class ListOf(Spec):
     def canon(self, rng, k):
         n = max(self.lo, min(self.hi, (self.lo + self.hi) // 2 + (1 if k >= 2 else 0)))
         return [self.spec.canon(rng, k) for _ in range(n)]
+
+    def rejects(self, rng):
+        return [[b] for b in self.spec.rejects(rng)] + ([[]] if self.lo > 0 else [])
 
 
 class Cat(Spec):
@@ -969,6 +1078,16 @@ class Cat(Spec):
     def canon(self, rng, k):
         return "".join(s.canon(rng, k) for s in self.specs)
 
+    def rejects(self, rng):
+        base, u = self.canon(rng, 0), self.unit()
+        return [base[: -len(u)], base + u, ""]
+
+    def unit(self):
+        for sp in self.specs:
+            if not isinstance(sp, (Const, Choice)):
+                return sp.unit()
+        return "00"
+
 
 class Rec(Spec):
     def __init__(self, **fields):
@@ -984,6 +1103,10 @@ class Rec(Spec):
 
     def canon(self, rng, k):
         return {n: s.canon(rng, k) for n, s in self.fields.items()}
+
+    def rejects(self, rng):
+        base = self.canon(rng, 0)
+        return [{**base, n: b} for n, sp in self.fields.items() for b in sp.rejects(rng)]
 
 
 def mode_families(e: Entry, cap: int = 400) -> List[List[dict]]:
@@ -1006,6 +1129,23 @@ def mode_families(e: Entry, cap: int = 400) -> List[List[dict]]:
         if len(fams) >= cap:
             break
     return fams
+
+
+def reject_candidates(e: Entry) -> List[dict]:
+    """Calls of the entry with exactly one argument replaced by a value just outside its spec (deterministic)."""
+    import random
+
+    rng = random.Random(f"C19/rejects/{e.id}")
+    base = {n: s.canon(random.Random(f"C19/{e.id}/0"), 0) for n, s in e.args.items()}
+    out, seen = [], set()
+    for n, sp in e.args.items():
+        for b in sp.rejects(rng):
+            a = {**base, n: b}
+            key = json.dumps(a, sort_keys=True)
+            if key not in seen:
+                seen.add(key)
+                out.append({"e": e.id, "a": a, "arg": n})
+    return out
 
 
 def args_strategy(e: Entry):
